@@ -57,4 +57,14 @@ def obligations(tier):
         Ob('O12.0-neg-anchor', 'fn', 'harness.tables:audit_negative_terms', timeout=t,
            descr='audit: the negative-number-term pattern of every culture extractor is anchored at the end of the prefix (premise of the sweep stub)'),
     ]
+    cs = [{'kind': k, 'pad': a} for k in ('datetime', 'currency') for a in range(9)] + [{'kind': 'dimension'}, {'kind': 'percentage'}]
+    obs.append(Ob('O12.6-composed', 'sx', 'harness.compose:h_compose', slices=cs, timeout=max(t, 300),
+                  descr='API level, all real regexes: date/time, currency, dimension and percentage queries assembled from pools (phrases sharing an hour digit, '
+                        'adjacent dates, ranges, modifiers, units sharing a sign): the returned entities are pairwise disjoint; an overlap is excused only when the '
+                        'add_to monitor attributes it to the recorded finding F3a (value covers one result and crosses another)',
+                  bounds='9 pads x 3..7 prefixes x 5..9 bodies x 7 tails per recogniser, enumerated through the solver; en-us',
+                  encodes=['recognizers_date_time.date_time.base_merged:BaseMergedExtractor.extract', 'recognizers_date_time.date_time.utilities:merge_all_tokens',
+                           'recognizers_number_with_unit.number_with_unit.models:AbstractNumberWithUnitModel.parse'],
+                  stubs=['BaseMergedExtractor.add_to wrapped by a recording monitor (calls the real one)'],
+                  engine='symx (solver-driven small-scope enumeration); the recognisers run natively'))
     return obs
